@@ -90,4 +90,8 @@ DLInner(d, vm, ilo, ihi, k, op, a, xs) ==
        [post |-> D!Put(d, k, r.post), ret |-> r.ret, excs |-> r.excs]
 DLInv(d, kvm, vm, ilo, ihi) ==
   D!WellFormed(d) /\ \A i \in 1..Len(d) : d[i][1] \in D!Valid /\ ListInv(d[i][2], vm, ilo, ihi)
+\* Transfer: a container attribute's value survives deepcopy / clone_traits / copy_traits / pickling / constructor keyword /
+\* assignment of another object's container of the same trait, and the receiving attribute is governed by the same
+\* trait: every operation on the receiver has the outcome the operations above give for that value.
+Transfer(v) == v
 =============================================================================
